@@ -2,7 +2,7 @@
   Props/C05.lean — CPD tables keep their column meaning; validation accepts exactly the
   column-normalised tables.
 -/
-import PgmVerif.Proofs.Factor
+import PgmVerif.Proofs.VE
 import PgmVerif.Model.CPD
 import PgmVerif.Model.Generated
 namespace PgmVerif
@@ -268,6 +268,19 @@ theorem C05_check_model_iff (tol : Rat) (ns : List NodeSpec) :
     simp only [this]
     rw [List.findSome?_eq_none_iff]
     exact h2
+
+/-- **a validated network's joint sums to one** (exact column sums): list the CPDs children-first
+    (reverse topological order), so that the child of each CPD occurs in no later CPD of the list;
+    if every CPD is normalised over its child, summing the product of all CPDs over all variables
+    gives 1 — for every graph shape and every cardinality -/
+theorem C05_joint_mass_one (K : Var → Nat) (cpds : List (Var × Factor))
+    (hnorm : ∀ p ∈ cpds, ∀ a, Bounded K a → sumVar K p.1 p.2.den a = 1)
+    (htopo : cpds.Pairwise (fun p q => p.1 ∉ q.2.scope))
+    (a : Asg) (ha : Bounded K a) :
+    sumOut K (cpds.map (·.1)) (jointDen (cpds.map (·.2))) a = 1 := by
+  have := leaves_sum_out K [] cpds hnorm (fun _ _ f hf => by cases hf) htopo a ha
+  rw [List.append_nil] at this
+  rw [this, jointDen_nil]
 
 /-- extraction tie: the `atol` literal in `DiscreteFactor.is_valid_cpd` is the documented 0.01 -/
 theorem C05_atol_tie : Generated.validCpdAtol = some (1, 100) := by decide
